@@ -298,6 +298,19 @@ def rule_G2(ctx, floor=60):
         return any('A' in st and 'R' not in st and 'ESC' not in st and 'ERR' not in st for st in o.normal | o.returns)
 
     for m, qn, owner, fn in gen_functions(ctx):
+        # lists of temps:  xs = [code.funcstate.allocate_temp(...) for _ in range(n)]  must be released element-wise
+        for n in walk_no_nested(fn):
+            if isinstance(n, ast.Assign) and len(n.targets) == 1 and isinstance(n.targets[0], ast.Name) and \
+                    any(isinstance(c, (ast.ListComp, ast.GeneratorExp)) and any(isinstance(x, ast.Call) and isinstance(x.func, ast.Attribute) and x.func.attr == 'allocate_temp' for x in ast.walk(c))
+                        for c in ast.walk(n.value)):
+                lst = n.targets[0].id
+                key = '%s.%s:%s[*]' % (m.short, qn, lst)
+                r.inst(key, sample='%s allocates a list of temps %s' % (m.short + '.' + qn, lst))
+                rel_l = released_names(fn)
+                escaped = any(isinstance(x, ast.Return) and x.value is not None and any(isinstance(y, ast.Name) and y.id == lst for y in ast.walk(x.value)) for x in walk_no_nested(fn)) or \
+                    any(isinstance(x, ast.Assign) and isinstance(x.targets[0], ast.Attribute) and any(isinstance(y, ast.Name) and y.id == lst for y in ast.walk(x.value)) for x in walk_no_nested(fn))
+                if (lst + '[*]') not in rel_l and not escaped:
+                    r.violate(key + ':never-released', m.rel, n.lineno, 'the temps allocated into the list %s are never released element-wise (for t in %s: release_temp(t))' % (lst, lst))
         allocs = [(n, _alloc_target(n)) for n in walk_no_nested(fn) if _alloc_target(n)]
         if not allocs:
             continue
